@@ -200,6 +200,13 @@ QUERIES = [
     ("SELECT account, number FROM #postings WHERE vp_yield('c', 1) = 1 AND number >= %(min)s", {'min': -1000000}),
     ("SELECT account, number FROM #postings WHERE vp_yield('c', 1) = 1 AND number >= %(min)s", {'min': 1000000}),
     ("SELECT account, number, %s AS tag FROM #postings WHERE vp_yield('c', 2) = 2 AND number >= %s", ('t', 0)),
+    # 17-19: the directive tables (one table object per connection) scanned by two statements at once
+    ("SELECT vp_yield('x', 1) AS y, date, currency, amount FROM #prices", None),
+    ("SELECT count(*) AS n, max(date) AS d, vp_yield('x', count(*)) AS y FROM #prices", None),
+    ("SELECT vp_yield('x', 1) AS y, date, narration FROM #transactions", None),
+    # 20-21: one function overload evaluated by two statements, a yield point while its arguments are being evaluated
+    ("SELECT root(account, vp_yield('x', lineno) * 0 + 2) AS r, account FROM #postings", None),
+    ("SELECT vp_yield('x', lineno) AS y, root(account, 1) AS r FROM #postings", None),
 ]
 OUTPUT_PHASE = (8, 9)
 
@@ -238,7 +245,8 @@ def run(ctx):
         else:
             other = ledgers.connect(*ledgers.gen_ledger(rng, ntxn=rng.range(3, 6))[1:])    # a different ledger
         before = audit_fingerprint(shared)
-        fixed = [(0, 0), (0, 3), (8, 8), (12, 13), (14, 15), (15, 16), (10, 1), (9, 9), (3, 3), (8, 9), (0, 1), (10, 2), (11, 2), (12, 12), (13, 12)]
+        fixed = [(0, 0), (0, 3), (8, 8), (12, 13), (14, 15), (15, 16), (19, 19), (20, 21), (17, 18), (10, 1), (9, 9), (3, 3), (8, 9), (0, 1), (10, 2),
+                 (11, 2), (12, 12), (13, 12), (21, 20), (17, 17)]
         pairs = rng.shuffle(list(itertools.product(range(len(QUERIES)), repeat=2)))
         if not ctx.thorough():
             pairs = pairs[:12]
